@@ -92,6 +92,45 @@ static double elem(long seed, long k) {
   return double(int64_t(h % 4001) - 2000) / 16.0;
 }
 static std::string show(double x) { return fmt("%.17g[%016llx]", x, (unsigned long long)bits(x)); }
+static uint64_t mix(long seed, long k) {
+  uint64_t h = uint64_t(seed) * 0x9E3779B97F4A7C15ull + uint64_t(k + 1) * 0xBF58476D1CE4E5B9ull;
+  h ^= h >> 31;
+  h *= 0x94D049BB133111EBull;
+  h ^= h >> 29;
+  return h;
+}
+static uint32_t fbits(float x) {
+  uint32_t b;
+  memcpy(&b, &x, 4);
+  return b;
+}
+// single precision content: values that are not representable more narrowly (and specials)
+static float felem(long seed, long k) {
+  static const std::vector<uint32_t> sp = {0x00000000u, 0x80000000u, 0x00000001u, 0x80000001u, 0x7f7fffffu, 0xff7fffffu, 0x7f800000u,
+                                           0xff800000u, 0x7fc00000u, 0x7fc01234u, 0x3dcccccdu /*0.1f*/, 0x3e4ccccdu /*0.2f*/, 0x40490fdbu};
+  uint64_t h = mix(seed, k);
+  uint32_t b = (h % 5 == 0) ? sp[size_t((h / 5) % sp.size())] : fbits(float(int64_t(h % 4001) - 2000) / 16.0f);
+  float x;
+  memcpy(&x, &b, 4);
+  return x;
+}
+static int ielem(long seed, long k) {
+  uint64_t h = mix(seed, k);
+  if (h % 5 == 0) return std::vector<int>{0, 1, -1, INT_MAX, INT_MIN, 65536, -65537}[size_t((h / 5) % 7)];
+  return int(int64_t(h % 4001) - 2000);
+}
+// 64-bit content: every fifth value does not fit 32 bits (or a double mantissa)
+static long lelem(long seed, long k) {
+  uint64_t h = mix(seed, k);
+  if (h % 5 == 0) return std::vector<long>{0, -1, 2147483648L, -2147483649L, LONG_MAX, LONG_MIN, 1099511627777L, 9007199254740993L}[size_t((h / 5) % 8)];
+  return long(int64_t(h % 4001) - 2000);
+}
+static unsigned uelem(long seed, long k) {
+  uint64_t h = mix(seed, k);
+  if (h % 5 == 0) return std::vector<unsigned>{0u, 1u, 4294967295u, 2147483648u, 4000000000u}[size_t((h / 5) % 5)];
+  return unsigned(h % 4001);
+}
+static bool is_matkind(const std::string &k) { return k == "m" || k == "mf" || k == "mi" || k == "ml"; }
 
 // ------------------------------------------------------------------ values
 static std::string str_of(const json &s) {
@@ -120,6 +159,10 @@ static std::vector<long> shape_of(const json &v) {
   if (storage(k) == "attr") return {};
   if (k == "vi" || k == "vi32") return {long(v.at("x").size()), 1};
   if (k == "vd") return {long(doubles_of(v).size()), 1};
+  if (k == "vf" || k == "vu") return {v.at("n").get<long>(), 1};
+  if (is_matkind(k)) return {v.at("r").get<long>(), v.at("c").get<long>()};
+  if (k == "tabp") return {v.at("n").get<long>(), 1};
+  if (k == "vv3" && v.contains("n")) return {v.at("n").get<long>()};
   if (k == "vs") return {long(v.at("x").size())};
   if (k == "m") return {v.at("r").get<long>(), v.at("c").get<long>()};
   if (k == "v") return {v.at("n").get<long>(), 1};
@@ -230,7 +273,13 @@ static json gen_value(const std::string &k, const json *like) {
       x.push_back(s);
     }
     v["x"] = x;
-  } else if (k == "m") {
+  } else if (k == "vf" || k == "vu") {
+    v["n"] = like ? sh[0] : gen_len();
+    v["seed"] = long(ri(0, 99));
+  } else if (k == "tabp") {
+    v["n"] = like ? sh[0] : long(ri(0, 7));
+    v["seed"] = long(ri(0, 99));
+  } else if (is_matkind(k)) {
     long r, c;
     if (like) {
       r = sh[0];
@@ -269,7 +318,7 @@ static json gen_value(const std::string &k, const json *like) {
 }
 static const std::vector<std::string> &kinds() {
   static const std::vector<std::string> k = {"i",  "i32", "u", "d", "b", "s", "vi", "vi32", "vd", "vd", "vs",
-                                             "m",  "m",   "m", "v", "v3", "vv3", "tab"};
+                                             "m",  "m",   "m", "v", "v3", "vv3", "tab", "mf", "mi", "ml", "vf", "vu", "tabp"};
   return k;
 }
 static const std::vector<std::vector<std::string>> &paths() {
@@ -306,7 +355,17 @@ static json gen_seq() {
       json val;
       auto it = last.find(key);
       int how = ri(0, 9);
-      if (it != last.end() && how < 4)
+      // kinds stored as an (n x 1) dataset resp. an (r x c) dataset: the same extent can be written with another element type
+      static const std::vector<std::string> colkinds = {"vd", "vf", "vi", "vi32", "vu", "v", "m", "mf", "mi", "ml", "tab", "tabp"};
+      static const std::vector<std::string> matkinds = {"m", "mf", "mi", "ml"};
+      std::vector<long> psh;
+      if (it != last.end() && storage(it->second.at("k")) == "dset") psh = shape_of(it->second);
+      if (psh.size() == 2 && rbool(25)) {
+        std::string k2 = pickv(psh[1] == 1 ? colkinds : matkinds);  // same extent, (usually) other element type
+        if (k2 == "tab" && psh[0] > 40) k2 = "tabp";
+        json like{{"k", "m"}, {"r", psh[0]}, {"c", psh[1]}, {"seed", 0L}};
+        val = gen_value(k2, &like);
+      } else if (it != last.end() && how < 4)
         val = gen_value(it->second.at("k"), &it->second);  // same kind, same shape, new content
       else if (it != last.end() && how < 7)
         val = gen_value(it->second.at("k"), nullptr);  // same kind, (probably) other shape
@@ -341,6 +400,60 @@ static json gen_single() {
                        {"direct", rbool(30)}});
   ops.push_back(json{{"op", "reopen"}, {"mode", "READ"}});
   return json{{"ops", ops}};
+}
+
+// corner histories that a random sequence reaches too rarely (always executed, every tier): every ordered pair of element
+// types over one stored extent, lists of 3-vectors around the 10^4 entries where the per-entry names get a fifth digit,
+// padded row structs
+static void enum_corners(int level, const std::function<bool(const json &)> &emit) {
+  auto wr = [](const std::string &name, const json &val) {
+    return json{{"op", "write"}, {"path", json::array()}, {"name", name}, {"val", val}, {"direct", false}};
+  };
+  auto seq = [&](std::vector<json> writes) {
+    json ops = json::array();
+    ops.push_back(json{{"op", "reopen"}, {"mode", "CREATE"}});
+    for (auto &w : writes) ops.push_back(w);
+    ops.push_back(json{{"op", "reopen"}, {"mode", "READ"}});
+    return json{{"ops", ops}};
+  };
+  static const std::vector<std::string> mk = {"m", "mf", "mi", "ml"};
+  for (auto &a : mk)
+    for (auto &b : mk) {
+      if (a == b) continue;
+      json va{{"k", a}, {"r", 3L}, {"c", 4L}, {"seed", 3L}}, vb{{"k", b}, {"r", 3L}, {"c", 4L}, {"seed", 5L}};
+      if (!emit(seq({wr("n0", va), wr("n0", vb)}))) return;
+    }
+  static const std::vector<std::string> ck = {"vd", "vf", "vi", "vi32", "vu", "v", "ml", "mf", "tabp"};
+  for (auto &a : ck)
+    for (auto &b : ck) {
+      if (a == b) continue;
+      auto mkv = [](const std::string &k, long seed) {
+        json v{{"k", k}, {"seed", seed}};
+        if (k == "vi" || k == "vi32") {
+          json x = json::array();
+          for (long i = 0; i < 6; ++i) x.push_back(k == "vi" ? lelem(seed, i) : long(ielem(seed, i)));
+          v["x"] = x;
+          v.erase("seed");
+        } else if (is_matkind(k))
+          v["r"] = 6L, v["c"] = 1L;
+        else
+          v["n"] = 6L;
+        return v;
+      };
+      if (!emit(seq({wr("n1", mkv(a, 7)), wr("n1", mkv(b, 9))}))) return;
+    }
+  for (long n : {9999L, 10000L, 10001L, 10050L}) {
+    json big{{"k", "vv3"}, {"n", n}, {"seed", 11L}}, small{{"k", "vv3"}, {"n", 12L}, {"seed", 13L}};
+    if (!emit(seq({wr("n2", big)}))) return;
+    if (level >= 2 || n == 10050) {
+      if (!emit(seq({wr("n2", big), wr("n2", small)}))) return;
+      if (!emit(seq({wr("n2", small), wr("n2", big)}))) return;
+    }
+  }
+  for (long n : {1L, 7L, 300L}) {
+    json t{{"k", "tabp"}, {"n", n}, {"seed", 17L}};
+    if (!emit(seq({wr("n3", t)}))) return;
+  }
 }
 
 // ------------------------------------------------------------------ child <-> parent
@@ -408,6 +521,50 @@ static void fill_rows(const json &v, std::vector<xtp::StaticSite::data> &rows, s
   }
 }
 
+// a row type whose C struct has alignment padding (4-byte columns between 8-byte columns); every column type is one that
+// CptTable::addCol accepts
+struct PadRow {
+  struct data {
+    int a;
+    double b;
+    unsigned c;
+    long d;
+    float e;
+  };
+  static void SetupCptTable(xtp::CptTable &t) {
+    t.addCol<int>("a", HOFFSET(data, a));
+    t.addCol<double>("b", HOFFSET(data, b));
+    t.addCol<unsigned>("c", HOFFSET(data, c));
+    t.addCol<long>("d", HOFFSET(data, d));
+    t.addCol<float>("e", HOFFSET(data, e));
+  }
+};
+static_assert(sizeof(PadRow::data) > 28, "row struct is expected to contain padding");
+static std::vector<PadRow::data> pad_rows(const json &v) {
+  long n = v.at("n"), seed = v.at("seed");
+  std::vector<PadRow::data> rows;
+  for (long i = 0; i < n; ++i) {
+    PadRow::data d;
+    memset(&d, 0, sizeof d);
+    d.a = ielem(seed, 5 * i);
+    d.b = elem(seed, 5 * i + 1);
+    d.c = uelem(seed, 5 * i + 2);
+    d.d = lelem(seed, 5 * i + 3);
+    d.e = felem(seed, 5 * i + 4);
+    rows.push_back(d);
+  }
+  return rows;
+}
+static std::vector<Eigen::Vector3d> vv3_of(const json &v) {
+  std::vector<Eigen::Vector3d> x;
+  if (v.contains("n")) {
+    long n = v.at("n"), seed = v.at("seed");
+    for (long i = 0; i < n; ++i) x.push_back(Eigen::Vector3d(elem(seed, 3 * i), elem(seed, 3 * i + 1), elem(seed, 3 * i + 2)));
+  } else
+    for (auto &e : v.at("x")) x.push_back(Eigen::Vector3d(dj(e[0]), dj(e[1]), dj(e[2])));
+  return x;
+}
+
 static void write_value(const xtp::CheckpointWriter &w, const std::string &name, const json &v) {
   std::string k = v.at("k");
   if (k == "i") {
@@ -449,6 +606,39 @@ static void write_value(const xtp::CheckpointWriter &w, const std::string &name,
     for (long i = 0; i < r; ++i)
       for (long j = 0; j < c; ++j) M(i, j) = elem(seed, i * c + j);
     w(M, name);
+  } else if (k == "mf") {
+    long r = v.at("r"), c = v.at("c"), seed = v.at("seed");
+    Eigen::MatrixXf M(r, c);
+    for (long i = 0; i < r; ++i)
+      for (long j = 0; j < c; ++j) M(i, j) = felem(seed, i * c + j);
+    w(M, name);
+  } else if (k == "mi") {
+    long r = v.at("r"), c = v.at("c"), seed = v.at("seed");
+    Eigen::MatrixXi M(r, c);
+    for (long i = 0; i < r; ++i)
+      for (long j = 0; j < c; ++j) M(i, j) = ielem(seed, i * c + j);
+    w(M, name);
+  } else if (k == "ml") {
+    long r = v.at("r"), c = v.at("c"), seed = v.at("seed");
+    Eigen::Matrix<long, Eigen::Dynamic, Eigen::Dynamic> M(r, c);
+    for (long i = 0; i < r; ++i)
+      for (long j = 0; j < c; ++j) M(i, j) = lelem(seed, i * c + j);
+    w(M, name);
+  } else if (k == "vf") {
+    long n = v.at("n"), seed = v.at("seed");
+    std::vector<float> x;
+    for (long i = 0; i < n; ++i) x.push_back(felem(seed, i));
+    w(x, name);
+  } else if (k == "vu") {
+    long n = v.at("n"), seed = v.at("seed");
+    std::vector<unsigned> x;
+    for (long i = 0; i < n; ++i) x.push_back(uelem(seed, i));
+    w(x, name);
+  } else if (k == "tabp") {
+    std::vector<PadRow::data> rows = pad_rows(v);
+    xtp::CheckpointWriter w2 = w;
+    xtp::CptTable t = w2.openTable<PadRow>(name, rows.size());
+    t.write(rows);
   } else if (k == "v") {
     long n = v.at("n"), seed = v.at("seed");
     Eigen::VectorXd V(n);
@@ -458,8 +648,7 @@ static void write_value(const xtp::CheckpointWriter &w, const std::string &name,
     Eigen::Vector3d V(dj(v.at("x")[0]), dj(v.at("x")[1]), dj(v.at("x")[2]));
     w(V, name);
   } else if (k == "vv3") {
-    std::vector<Eigen::Vector3d> x;
-    for (auto &e : v.at("x")) x.push_back(Eigen::Vector3d(dj(e[0]), dj(e[1]), dj(e[2])));
+    std::vector<Eigen::Vector3d> x = vv3_of(v);
     w(x, name);
   } else if (k == "tab") {
     std::vector<xtp::StaticSite::data> rows;
@@ -589,15 +778,81 @@ static std::string read_compare(const xtp::CheckpointReader &r, const std::strin
     return "";
   }
   if (k == "vv3") {
-    std::vector<Eigen::Vector3d> x;
+    std::vector<Eigen::Vector3d> x, e = vv3_of(v);
     r(x, name);
-    const json &e = v.at("x");
     if (x.size() != e.size()) return fmt("vector<Vector3d> length: got %zu expected %zu", x.size(), e.size());
     for (size_t i = 0; i < x.size(); ++i)
       for (int c = 0; c < 3; ++c) {
-        std::string d = cmp_d(x[i](c), dj(e[i][size_t(c)]), fmt("[%zu](%d)", i, c));
+        std::string d = cmp_d(x[i](c), e[i](c), fmt("[%zu](%d)", i, c));
         if (!d.empty()) return d;
       }
+    return "";
+  }
+  if (k == "mf" || k == "mi" || k == "ml") {
+    long er = v.at("r"), ec = v.at("c"), seed = v.at("seed");
+    auto shape = [&](long gr, long gc) { return (gr != er || gc != ec) ? fmt("shape: got %ldx%ld expected %ldx%ld", gr, gc, er, ec) : std::string(); };
+    if (k == "mf") {
+      Eigen::MatrixXf M;
+      r(M, name);
+      std::string d = shape(M.rows(), M.cols());
+      if (!d.empty()) return d;
+      for (long i = 0; i < er; ++i)
+        for (long j = 0; j < ec; ++j)
+          if (fbits(M(i, j)) != fbits(felem(seed, i * ec + j)))
+            return fmt("float (%ld,%ld): got %.9g[%08x] expected %.9g[%08x]", i, j, double(M(i, j)), fbits(M(i, j)), double(felem(seed, i * ec + j)), fbits(felem(seed, i * ec + j)));
+    } else if (k == "mi") {
+      Eigen::MatrixXi M;
+      r(M, name);
+      std::string d = shape(M.rows(), M.cols());
+      if (!d.empty()) return d;
+      for (long i = 0; i < er; ++i)
+        for (long j = 0; j < ec; ++j)
+          if (M(i, j) != ielem(seed, i * ec + j)) return fmt("int (%ld,%ld): got %d expected %d", i, j, M(i, j), ielem(seed, i * ec + j));
+    } else {
+      Eigen::Matrix<long, Eigen::Dynamic, Eigen::Dynamic> M;
+      r(M, name);
+      std::string d = shape(M.rows(), M.cols());
+      if (!d.empty()) return d;
+      for (long i = 0; i < er; ++i)
+        for (long j = 0; j < ec; ++j)
+          if (M(i, j) != lelem(seed, i * ec + j)) return fmt("long (%ld,%ld): got %ld expected %ld", i, j, M(i, j), lelem(seed, i * ec + j));
+    }
+    return "";
+  }
+  if (k == "vf") {
+    long n = v.at("n"), seed = v.at("seed");
+    std::vector<float> x;
+    r(x, name);
+    if (long(x.size()) != n) return fmt("vector<float> length: got %zu expected %ld", x.size(), n);
+    for (long i = 0; i < n; ++i)
+      if (fbits(x[size_t(i)]) != fbits(felem(seed, i)))
+        return fmt("float element %ld: got %.9g[%08x] expected %.9g[%08x]", i, double(x[size_t(i)]), fbits(x[size_t(i)]), double(felem(seed, i)), fbits(felem(seed, i)));
+    return "";
+  }
+  if (k == "vu") {
+    long n = v.at("n"), seed = v.at("seed");
+    std::vector<unsigned> x;
+    r(x, name);
+    if (long(x.size()) != n) return fmt("vector<unsigned> length: got %zu expected %ld", x.size(), n);
+    for (long i = 0; i < n; ++i)
+      if (x[size_t(i)] != uelem(seed, i)) return fmt("unsigned element %ld: got %u expected %u", i, x[size_t(i)], uelem(seed, i));
+    return "";
+  }
+  if (k == "tabp") {
+    xtp::CheckpointReader r2 = r;
+    xtp::CptTable t = r2.openTable<PadRow>(name);
+    std::vector<PadRow::data> exp = pad_rows(v);
+    if (t.numRows() != exp.size()) return fmt("table rows: got %zu expected %zu", t.numRows(), exp.size());
+    if (exp.empty()) return "";
+    std::vector<PadRow::data> got(exp.size());
+    memset(got.data(), 0x5a, got.size() * sizeof(PadRow::data));
+    t.read(got);
+    for (size_t i = 0; i < exp.size(); ++i) {
+      const PadRow::data &g = got[i], &e = exp[i];
+      if (g.a != e.a || bits(g.b) != bits(e.b) || g.c != e.c || g.d != e.d || fbits(g.e) != fbits(e.e))
+        return fmt("padded row %zu: got (%d, %.17g, %u, %ld, %.9g) expected (%d, %.17g, %u, %ld, %.9g)", i, g.a, g.b, g.c, g.d, double(g.e), e.a, e.b,
+                   e.c, e.d, double(e.e));
+    }
     return "";
   }
   if (k == "tab") {
@@ -828,7 +1083,7 @@ struct Machine {
         if (hv.at("k") != val.at("k")) type_change = true;
         if (storage(hv.at("k")) == storage(val.at("k")) && shape_of(hv) != shape_of(val)) shape_change = true;
       }
-    bool emptymat = (val.at("k") == "m" && val.at("c").get<long>() == 0);
+    bool emptymat = (is_matkind(val.at("k")) && val.at("c").get<long>() == 0);
     bool emptystr = false;
     if (val.at("k") == "vs")
       for (auto &e : val.at("x"))
@@ -852,7 +1107,11 @@ struct Machine {
     }
     if (shape_change) nt_shape = true;
     if (path.size() >= 2) r.cls("nested-depth>=2");
-    if (val.at("k") == "m" && val.at("r").get<long>() * val.at("c").get<long>() > 2500) r.cls("big-matrix");
+    if (is_matkind(val.at("k")) && val.at("r").get<long>() * val.at("c").get<long>() > 2500) r.cls("big-matrix");
+    if (it != model.end() && type_change && storage(it->second.val.at("k")) == "dset" && storage(val.at("k")) == "dset" &&
+        shape_of(it->second.val).size() == 2 && shape_of(it->second.val) == shape_of(val))
+      r.cls("overwrite-same-extent-other-element-type");
+    if (val.at("k") == "vv3" && shape_of(val)[0] > 10000) r.cls("vector<Vector3d>-longer-than-10000");
     if (emptystr) r.cls("vector<string>-with-empty-element");
     if (val.at("k") == "s" && str_of(val).size() > 10000) r.cls("string>10kB");
     bool direct = op.at("direct").get<bool>() && !path.empty() && groups.count(gpath(path, path.size() - 1));
@@ -922,7 +1181,8 @@ struct Machine {
     else if (k == "b") v["x"] = false;
     else if (k == "s") v["base"] = "", v["rep"] = 0;
     else if (k == "vi" || k == "vi32" || k == "vd" || k == "vs" || k == "vv3") v["x"] = json::array();
-    else if (k == "m") v["r"] = 0L, v["c"] = 0L, v["seed"] = 0L;
+    else if (is_matkind(k)) v["r"] = 0L, v["c"] = 0L, v["seed"] = 0L;
+    else if (k == "vf" || k == "vu" || k == "tabp") v["n"] = 0L, v["seed"] = 0L;
     else if (k == "v") v["n"] = 0L, v["seed"] = 0L;
     else if (k == "v3") v["x"] = json::array({0.0, 0.0, 0.0});
     else if (k == "tab") v["rows"] = json::array();
@@ -1051,5 +1311,6 @@ int main(int argc, char **argv) {
   std::vector<Sub> subs;
   subs.push_back(Sub{"statemachine", gen_seq, run_case, 0.8, 100, nullptr});
   subs.push_back(Sub{"single", gen_single, run_case, 0.2, 100, nullptr});
+  subs.push_back(Sub{"corners", nullptr, run_case, 0.001, 100, enum_corners});
   return harness_main(argc, argv, "C17", subs);
 }
